@@ -988,7 +988,7 @@ func (b *Body) guarantee(key string, pre, post State, reach *T, pos token.Pos) {
 		}
 		name := "guarantee:" + shortKey(key) + "@" + cl.Name
 		name += fmt.Sprintf("#%d", ft.count(name))
-		ft.oblige(&Obligation{Name: name, Kind: "callsite", Tags: unionTags(cl.Tags, ft.allTags()), Guard: reach, Goal: g, Src: "rely " + cl.Src, Pos: ft.pos(pos)})
+		ft.oblige(&Obligation{Name: name, Kind: "callsite", Tags: cl.Tags, Guard: reach, Goal: g, Src: "rely " + cl.Src, Pos: ft.pos(pos)})
 	}
 }
 
